@@ -331,13 +331,11 @@ pub fn contexts(core: &str, d: &Delims, n: &Names, level: u8) -> Vec<String> {
 }
 
 struct Bounds {
-    ast: AstParams,
-    ast_pairs: Vec<usize>,
+    /// G-ast passes: (grammar parameters, delimiter pairs)
+    asts: Vec<(AstParams, Vec<usize>)>,
     ast_ctx: u8,
-    line_n: usize,
-    line_reduced: bool,
-    line_pairs: Vec<usize>,
-    line_ctx_n: usize,
+    /// G-line passes: (max lines, reduced alphabet?, delimiter pairs, contexts up to this length)
+    lines: Vec<(usize, bool, Vec<usize>, usize)>,
     tok_n: usize,
     tok_pairs: Vec<usize>,
     tok_ctx_n: usize,
@@ -362,43 +360,66 @@ fn bounds(p: P, tier: Tier) -> Bounds {
     };
     match tier {
         Tier::Quick => Bounds {
-            ast: AstParams {
-                max_lines: 6,
-                ..base
-            },
-            ast_pairs: vec![0, 1, 6],
+            asts: vec![(
+                AstParams {
+                    max_lines: 6,
+                    ..base
+                },
+                vec![0, 1, 6],
+            )],
             ast_ctx: 1,
-            line_n: 5,
-            line_reduced: true,
-            line_pairs: vec![0],
-            line_ctx_n: 3,
+            lines: vec![(5, true, vec![0], 3)],
             tok_n: 5,
             tok_pairs: vec![0, 1, 8],
             tok_ctx_n: 3,
         },
         Tier::Thorough => Bounds {
-            ast: AstParams {
-                max_lines: 8,
-                max_depth: 3,
-                block_kinds: vec![
-                    Kind::Expired,
-                    Kind::Future,
-                    Kind::Targeted,
-                    Kind::SkipExpired,
-                    Kind::SkipFuture,
-                    Kind::Unregistered,
-                ],
-                inline_kinds: vec![Kind::Expired, Kind::Future],
-                ws_lines: true,
-                mb: true,
-                ..base
-            },
-            ast_pairs: all_pairs.clone(),
+            asts: vec![
+                // the quick grammar under every delimiter spelling
+                (
+                    AstParams {
+                        max_lines: 6,
+                        shared_lines: false,
+                        ..base.clone()
+                    },
+                    all_pairs.clone(),
+                ),
+                // wide: every kind, every line form, two regions per line; 5 lines (6.5e6 trees)
+                (
+                    AstParams {
+                        max_lines: 5,
+                        max_depth: 2,
+                        block_kinds: vec![
+                            Kind::Expired,
+                            Kind::Future,
+                            Kind::Targeted,
+                            Kind::SkipExpired,
+                            Kind::SkipFuture,
+                            Kind::Unregistered,
+                        ],
+                        inline_kinds: vec![Kind::Expired, Kind::Future],
+                        ws_lines: true,
+                        mb: true,
+                        ..base.clone()
+                    },
+                    if p == P::C01 { vec![0, 6] } else { vec![0, 1, 6, 8] },
+                ),
+                // deep: 8 lines, nesting depth 3, two kinds (6.0e5 trees)
+                (
+                    AstParams {
+                        max_lines: 8,
+                        max_depth: 3,
+                        block_kinds: vec![Kind::Expired, Kind::Future],
+                        inline_kinds: vec![Kind::Expired],
+                        extra_indent: false,
+                        shared_lines: false,
+                        ..base.clone()
+                    },
+                    vec![0, 1, 13],
+                ),
+            ],
             ast_ctx: 1,
-            line_n: 6,
-            line_reduced: false,
-            line_pairs: vec![0, 1],
-            line_ctx_n: 4,
+            lines: vec![(6, true, vec![0, 1], 4), (5, false, vec![0], 3)],
             tok_n: 6,
             tok_pairs: all_pairs,
             tok_ctx_n: 4,
@@ -493,8 +514,12 @@ pub fn run(r: &Report, p: P) {
         ..Cfg::standard()
     };
     let mv_docs = std::sync::atomic::AtomicU64::new(0);
-    {
-        let ast = b.ast.clone();
+    let mut ast_passes = vec![];
+    for (ast, ast_pairs) in &b.asts {
+        if r.stopped() {
+            break;
+        }
+        let ast = ast.clone();
         let single = crate::explore::count_choices(|ch: &mut Chooser| {
             gen::gen_doc(ch, &ast);
         });
@@ -504,7 +529,7 @@ pub fn run(r: &Report, p: P) {
             || r.local(),
             |l: &mut Local, items, trace| {
                 l.transition(trace.len() as u64);
-                for (pi, &pair) in b.ast_pairs.iter().enumerate() {
+                for (pi, &pair) in ast_pairs.iter().enumerate() {
                     let d = &gen::POOL[pair];
                     for final_newline in [true, false] {
                         let rd = gen::render(
@@ -557,28 +582,38 @@ pub fn run(r: &Report, p: P) {
             },
             &|| r.stopped(),
         );
-        r.expect_count("G-ast trees (parallel split vs single-threaded count)", single, counted);
-        r.extra("ast_trees", json!(counted));
-        r.extra("ast_max_lines", json!(b.ast.max_lines));
-        r.extra(
-            "model_validation",
-            json!({"ast_documents_where_reference_pipeline_equals_ground_truth_by_construction": mv_docs.load(std::sync::atomic::Ordering::Relaxed)}),
+        r.expect_count(
+            &format!("G-ast trees max_lines={} depth={} (parallel split vs single-threaded count)", ast.max_lines, ast.max_depth),
+            single,
+            counted,
         );
+        ast_passes.push(json!({"max_lines": ast.max_lines, "max_depth": ast.max_depth, "block_kinds": ast.block_kinds.len(),
+            "inline_kinds": ast.inline_kinds.len(), "two_regions_per_line": ast.shared_lines, "delimiter_pairs": ast_pairs.len(), "trees": counted}));
     }
+    r.extra("ast_passes", json!(ast_passes));
+    r.extra(
+        "model_validation",
+        json!({"ast_documents_where_reference_pipeline_equals_ground_truth_by_construction": mv_docs.load(std::sync::atomic::Ordering::Relaxed)}),
+    );
     // ---- phase 2: G-line ----------------------------------------------------------------
-    for &pair in &b.line_pairs {
+    let line_jobs: Vec<(usize, bool, usize, usize)> = b
+        .lines
+        .iter()
+        .flat_map(|(n, red, pairs, ctx)| pairs.iter().map(move |&pr| (*n, *red, pr, *ctx)))
+        .collect();
+    for &(line_n, line_reduced, pair, line_ctx_n) in &line_jobs {
         if r.stopped() {
             break;
         }
         let d = &gen::POOL[pair];
-        let atoms = gen::line_atoms(d, &names, b.line_reduced);
+        let atoms = gen::line_atoms(d, &names, line_reduced);
         let counted = explore_seqs(
             &atoms,
-            b.line_n,
+            line_n,
             || r.local(),
             |l: &mut Local, idx, doc| {
                 l.transition(if idx.is_empty() { 0 } else { 1 });
-                let lvl = if idx.len() <= b.line_ctx_n { 2 } else { 1 };
+                let lvl = if idx.len() <= line_ctx_n { 2 } else { 1 };
                 let mut variants = vec![doc.to_string()];
                 if doc.ends_with('\n') {
                     variants.push(doc[..doc.len() - 1].to_string());
@@ -599,8 +634,8 @@ pub fn run(r: &Report, p: P) {
             &|| r.stopped(),
         );
         r.expect_count(
-            &format!("G-line {:?}/{:?} atoms={} N={}", d.ds, d.de, atoms.len(), b.line_n),
-            seq_count(atoms.len() as u64, b.line_n as u32),
+            &format!("G-line {:?}/{:?} atoms={} N={}", d.ds, d.de, atoms.len(), line_n),
+            seq_count(atoms.len() as u64, line_n as u32),
             counted,
         );
     }
